@@ -85,4 +85,10 @@ META = {
   "note": "Independent verification uses ed25519-dalek directly; the proof message layout (amount big-endian || excess || sender key) is taken from the property's wording and the wallet's documented format.",
   "technique": "runtime monitoring: soundness oracle over altered replies and altered exported proofs on real wallets and chain",
  },
+ "C07": {
+  "text": "Runtime monitoring with a frame-condition oracle on the wallet's raw database content, files and spendable balance around every foreign call of generated hostile and honest sequences (direct calls and the JSON-RPC handler), several thousand calls per quick run.",
+  "design_ref": "DESIGN.md section 5 C07",
+  "note": "The oracle parses the stored JSON records; counters (log id, derivation index) are exempt.",
+  "technique": "runtime monitoring: frame-condition monitor (full key/value dump diff) over generated foreign-API call sequences",
+ },
 }
